@@ -123,6 +123,9 @@ structure Good (cfg : Cfg) (unique : Nat) (r : Res) : Prop where
   areaWf : r.out.area = [] ∨ WfArea unique r.out.area
   /-- a positive return value means a reply went out -/
   okReplied : ∀ n, r.ret = .ok n → 0 < n → Replied cfg r
+  /-- nothing larger than the reply buffer is ever handed to the transport -/
+  fitsSys : ∀ m ∈ r.out.sys, m.length ≤ cfg.cap
+  fitsArea : r.out.area.length ≤ cfg.cap
 
 theorem good_silent (cfg : Cfg) (u : Nat) (r : Res) (ho : r.out = {}) (hr : ∀ s, r.ret ≠ .panic s)
     (h0 : ∀ n, r.ret = .ok n → n = 0) : Good cfg u r where
@@ -133,24 +136,28 @@ theorem good_silent (cfg : Cfg) (u : Nat) (r : Res) (ho : r.out = {}) (hr : ∀ 
   sysWf := by simp [ho]
   areaWf := by simp [ho]
   okReplied := by intro n h hp; have := h0 n h; omega
+  fitsSys := by simp [ho]
+  fitsArea := by simp [ho]
 
 theorem good_bail (cfg : Cfg) (u : Nat) (calls : List Call) (al : List Nat) (e : SrvErr) :
     Good cfg u (bail cfg calls al e) :=
   good_silent cfg u _ rfl (by intro s; simp [bail]) (by intro n h; simp [bail] at h)
 
 /-- one complete message `m` emitted on an unsplit writer -/
-theorem good_emit (cfg : Cfg) (u : Nat) (r : Res) (m : Bytes) (hm : WfMsg u m)
+theorem good_emit (cfg : Cfg) (u : Nat) (r : Res) (m : Bytes) (hm : WfMsg u m) (hml : m.length ≤ cfg.cap)
     (ho : r.out = emit cfg m) (hr : ∀ s, r.ret ≠ .panic s) : Good cfg u r := by
   have hne : m ≠ [] := by intro h; have := hm.len16; simp [h] at this
   cases hf : cfg.fusedev
   · have : r.out = { area := m } := by rw [ho]; simp [emit, hf]
     exact { noPanic := hr, oneWrite := by simp [this], sepF := by simp [hf], sepV := by simp [this],
             sysWf := by simp [this], areaWf := by right; simp [this]; exact wfArea_of_wfMsg hm,
-            okReplied := by intro n _ _; simp [Replied, hf, this, hne] }
+            okReplied := by intro n _ _; simp [Replied, hf, this, hne],
+            fitsSys := by simp [this], fitsArea := by simp [this]; exact hml }
   · have : r.out = { sys := [m] } := by rw [ho]; simp [emit, hf]
     exact { noPanic := hr, oneWrite := by simp [this], sepF := by simp [this], sepV := by simp [hf],
             sysWf := by simp [this]; exact hm, areaWf := by left; simp [this],
-            okReplied := by intro n _ _; simp [Replied, hf, this] }
+            okReplied := by intro n _ _; simp [Replied, hf, this],
+            fitsSys := by simp [this]; exact hml, fitsArea := by simp [this] }
 
 theorem replyErr_cases (cfg : Cfg) (u : Nat) (e : IoErr) :
     (replyErr cfg u e = ({}, .err .encodeMessage) ∧ cfg.cap < 16) ∨
@@ -187,13 +194,13 @@ theorem wf_okMsg (cfg : Cfg) (u : Nat) (body data : Bytes) (hu : u < 2 ^ 64) (hc
 theorem good_of_replyErr (cfg : Cfg) (u : Nat) (e : IoErr) (r : Res) (hu : u < 2 ^ 64) (he : e.Sane)
     (ho : r.out = (replyErr cfg u e).1) (hr : ∀ s, r.ret ≠ .panic s)
     (hret : r.ret = (replyErr cfg u e).2 ∨ ∀ n, r.ret ≠ .ok n) : Good cfg u r := by
-  rcases replyErr_cases cfg u e with ⟨h, _⟩ | ⟨h, _⟩
+  rcases replyErr_cases cfg u e with ⟨h, _⟩ | ⟨h, h16⟩
   · refine good_silent cfg u r (by rw [ho, h]) hr ?_
     intro n hn
     rcases hret with h' | h'
     · rw [h', h] at hn; cases hn
     · exact absurd hn (h' n)
-  · exact good_emit cfg u r _ (wf_errHeader u e hu he) (by rw [ho, h]) hr
+  · exact good_emit cfg u r _ (wf_errHeader u e hu he) (by rw [outHeader_length]; exact h16) (by rw [ho, h]) hr
 
 theorem good_of_replyOk (cfg : Cfg) (u : Nat) (body data : Bytes) (r : Res) (hu : u < 2 ^ 64)
     (hcap : cfg.cap < 2 ^ 32) (ho : r.out = (replyOk cfg u body data).1) (hr : ∀ s, r.ret ≠ .panic s)
@@ -204,7 +211,8 @@ theorem good_of_replyOk (cfg : Cfg) (u : Nat) (body data : Bytes) (r : Res) (hu 
     rcases hret with h' | h'
     · rw [h', h] at hn; cases hn
     · exact h' n hn
-  · exact good_emit cfg u r _ (wf_okMsg cfg u body data hu hcap hfit) (by rw [ho, h]) hr
+  · exact good_emit cfg u r _ (wf_okMsg cfg u body data hu hcap hfit)
+      (by simp only [List.length_append, outHeader_length]; omega) (by rw [ho, h]) hr
 
 theorem replyErr_ret_ne_panic (cfg : Cfg) (u : Nat) (e : IoErr) (s : String) :
     (replyErr cfg u e).2 ≠ .panic s := by
@@ -262,7 +270,8 @@ theorem good_named (cfg : Cfg) (u : Nat) (calls0 : List Call) (hdrLen : Nat) (r 
     · exact hk _ _
 
 theorem good_splitErr (cfg : Cfg) (u : Nat) (calls : List Call) (e : IoErr) (junk : Bytes)
-    (hu : u < 2 ^ 64) (he : e.Sane) : Good cfg u (splitErr cfg u calls e junk) := by
+    (hu : u < 2 ^ 64) (he : e.Sane) (hj : 16 + junk.length ≤ cfg.cap) :
+    Good cfg u (splitErr cfg u calls e junk) := by
   unfold splitErr OUT_HDR
   cases hf : cfg.fusedev
   · exact { noPanic := by intro s; simp, oneWrite := by simp [hf], sepF := by simp [hf], sepV := by simp [hf],
@@ -272,10 +281,13 @@ theorem good_splitErr (cfg : Cfg) (u : Nat) (calls : List Call) (e : IoErr) (jun
               intro n _ _
               have hl : (outHeader 16 (errField e) u ++ junk).length ≠ 0 := by simp [outHeader_length]
               simp only [Replied, hf, Bool.false_eq_true, if_false]
-              intro hc; rw [hc] at hl; simp at hl }
+              intro hc; rw [hc] at hl; simp at hl,
+            fitsSys := by simp [hf],
+            fitsArea := by simp [hf, outHeader_length]; omega }
   · exact { noPanic := by intro s; simp, oneWrite := by simp [hf], sepF := by simp [hf], sepV := by simp [hf],
             sysWf := by simp [hf]; exact wf_errHeader u e hu he, areaWf := by left; simp [hf],
-            okReplied := by intro n _ _; simp [Replied, hf] }
+            okReplied := by intro n _ _; simp [Replied, hf],
+            fitsSys := by simp [hf, outHeader_length]; omega, fitsArea := by simp [hf] }
 
 theorem good_splitOk (cfg : Cfg) (u : Nat) (calls : List Call) (payload : Bytes)
     (hu : u < 2 ^ 64) (hcap : cfg.cap < 2 ^ 32) (hfit : 16 + payload.length ≤ cfg.cap) :
@@ -283,7 +295,8 @@ theorem good_splitOk (cfg : Cfg) (u : Nat) (calls : List Call) (payload : Bytes)
   unfold splitOk OUT_HDR
   have hlt : 16 + payload.length < 2 ^ 32 := by omega
   rw [Nat.mod_eq_of_lt hlt]
-  exact good_emit cfg u _ _ (wfMsg_header _ 0 u payload rfl hlt hu (Or.inl rfl)) rfl (by intro s; simp)
+  exact good_emit cfg u _ _ (wfMsg_header _ 0 u payload rfl hlt hu (Or.inl rfl))
+    (by simp only [List.length_append, outHeader_length]; omega) rfl (by intro s; simp)
 
 theorem pushChunk_fits (cc written : Nat) (acc : Bytes × Bool) (c : Bytes)
     (h : written + acc.1.length ≤ cc) : written + (pushChunk cc written acc c).1.length ≤ cc := by
@@ -355,10 +368,10 @@ theorem good_readReply (cfg : Cfg) (u : Nat) (calls : List Call) (a : Ans) (hu :
   split
   · next d =>
     split
-    · exact good_splitErr _ _ _ _ _ hu sane_invalidData
+    · exact good_splitErr _ _ _ _ _ hu sane_invalidData (by simp; omega)
     · next hd => exact good_splitOk _ _ _ _ hu hcap (by unfold OUT_HDR at hd; omega)
-  · next e => exact good_splitErr _ _ _ _ _ hu (ha e rfl)
-  · exact good_splitErr _ _ _ _ _ hu (sane_os _ (by decide) (by decide))
+  · next e => exact good_splitErr _ _ _ _ _ hu (ha e rfl) (by simp; omega)
+  · exact good_splitErr _ _ _ _ _ hu (sane_os _ (by decide) (by decide)) (by simp; omega)
 
 theorem good_dirReply (cfg : Cfg) (u : Nat) (calls : List Call) (size : Nat) (plus : Bool) (a : Ans)
     (hu : u < 2 ^ 64) (hcap : cfg.cap < 2 ^ 32) (h16 : 16 ≤ cfg.cap) (ha : ∀ e, a = .err e → e.Sane) :
@@ -372,18 +385,19 @@ theorem good_dirReply (cfg : Cfg) (u : Nat) (calls : List Call) (size : Nat) (pl
       rw [heq] at hf
       have := hf.2 e rfl
       subst this
-      exact good_splitErr _ _ _ _ _ hu sane_invalidData
+      exact good_splitErr _ _ _ _ _ hu sane_invalidData (by have := hf.1; unfold OUT_HDR at this; simp at this; omega)
     · next payload heq =>
       rw [heq] at hf
       exact good_splitOk _ _ _ _ hu hcap (by have := hf.1; unfold OUT_HDR at this; simp at this; omega)
-  · next e => exact good_splitErr _ _ _ _ _ hu (ha e rfl)
-  · exact good_splitErr _ _ _ _ _ hu (sane_os _ (by decide) (by decide))
+  · next e => exact good_splitErr _ _ _ _ _ hu (ha e rfl) (by simp; omega)
+  · exact good_splitErr _ _ _ _ _ hu (sane_os _ (by decide) (by decide)) (by simp; omega)
 
 /-- DESTROY: the reply of `okRes` with the return value overridden -/
 theorem good_withRet (cfg : Cfg) (u : Nat) (r : Res) (h : Good cfg u r) :
     Good cfg u { r with ret := .ok 0 } :=
   { noPanic := by intro s; simp, oneWrite := h.oneWrite, sepF := h.sepF, sepV := h.sepV, sysWf := h.sysWf,
-    areaWf := h.areaWf, okReplied := by intro n hn hp; simp at hn; omega }
+    areaWf := h.areaWf, okReplied := by intro n hn hp; simp at hn; omega,
+    fitsSys := h.fitsSys, fitsArea := h.fitsArea }
 
 theorem good_lookupReply (cfg : Cfg) (u : Nat) (calls : List Call) (al : List Nat) (a : Ans)
     (hu : u < 2 ^ 64) (hcap : cfg.cap < 2 ^ 32) (ha : ∀ e, a = .err e → e.Sane) :
